@@ -16,6 +16,10 @@ import z3
 # --------------------------------------------------------------------------------------------
 
 
+_PI = z3.Real("pi")
+PI_AXIOMS = [_PI > z3.RealVal("3.14159265358"), _PI < z3.RealVal("3.14159265359")]
+
+
 class Unsupported(Exception):
     """code outside the verified subset -> undecided, never a violation"""
 
@@ -71,7 +75,7 @@ class Ctx:
         self.prefix = list(prefix)
         self.cursor = 0
         self.pc = []  # decisions taken (z3 Bool)
-        self.defs = []  # definitions of fresh symbols / assumed preconditions / axiom instances
+        self.defs = list(PI_AXIOMS)  # definitions of fresh symbols / assumed preconditions / axiom instances
         self.foralls = []  # (arity, extents, closure) universally quantified facts
         self.index_terms = []  # z3 Int terms used to instantiate foralls
         self.counter = itertools.count()
@@ -85,6 +89,7 @@ class Ctx:
         self.ax_done = set()
         self.notes = []
         self.bound_stack = []  # z3 Int consts bound by an enclosing Sigma / generic evaluation
+        self.bound_guards = []  # range facts of the bound indices on the stack (parallel to bound_stack)
         self.nonneg = {}  # z3 term id -> bool: integer terms known to be >= 0 (no negative-index wrap)
 
     def fresh(self, base, sort="Real"):
@@ -133,6 +138,8 @@ class Ctx:
     def hypotheses(self, extra_terms=()):
         """pc + defs + instances of the universal facts at the registered index terms"""
         hyps = list(self.defs) + list(self.pc)
+        for g in self.bound_guards:
+            hyps.extend(g)
         terms = list(self.index_terms)
         for t in extra_terms:
             t = unwrap(t)
@@ -236,8 +243,6 @@ def ctx() -> Ctx:
 # scalars
 # --------------------------------------------------------------------------------------------
 
-_PI = z3.Real("pi")
-PI_AXIOMS = [_PI > z3.RealVal("3.14159265358"), _PI < z3.RealVal("3.14159265359")]
 
 
 def realval(x):
@@ -284,45 +289,73 @@ class Sym:
 
     # arithmetic
     def __add__(self, o):
+        if hasattr(o, '_fn'):
+            return NotImplemented
         return add(self, o)
 
     def __radd__(self, o):
+        if hasattr(o, '_fn'):
+            return NotImplemented
         return add(o, self)
 
     def __sub__(self, o):
+        if hasattr(o, '_fn'):
+            return NotImplemented
         return sub(self, o)
 
     def __rsub__(self, o):
+        if hasattr(o, '_fn'):
+            return NotImplemented
         return sub(o, self)
 
     def __mul__(self, o):
+        if hasattr(o, '_fn'):
+            return NotImplemented
         return mul(self, o)
 
     def __rmul__(self, o):
+        if hasattr(o, '_fn'):
+            return NotImplemented
         return mul(o, self)
 
     def __truediv__(self, o):
+        if hasattr(o, '_fn'):
+            return NotImplemented
         return div(self, o)
 
     def __rtruediv__(self, o):
+        if hasattr(o, '_fn'):
+            return NotImplemented
         return div(o, self)
 
     def __floordiv__(self, o):
+        if hasattr(o, '_fn'):
+            return NotImplemented
         return floordiv(self, o)
 
     def __rfloordiv__(self, o):
+        if hasattr(o, '_fn'):
+            return NotImplemented
         return floordiv(o, self)
 
     def __mod__(self, o):
+        if hasattr(o, '_fn'):
+            return NotImplemented
         return mod(self, o)
 
     def __rmod__(self, o):
+        if hasattr(o, '_fn'):
+            return NotImplemented
         return mod(o, self)
 
     def __pow__(self, o):
+        if hasattr(o, '_fn'):
+            return NotImplemented
         return power(self, o)
 
     def __rpow__(self, o):
+        if hasattr(o, '_fn'):
+            return NotImplemented
         return power(o, self)
 
     def __neg__(self):
@@ -336,34 +369,54 @@ class Sym:
 
     # comparisons
     def __lt__(self, o):
+        if hasattr(o, '_fn'):
+            return NotImplemented
         return cmp("<", self, o)
 
     def __le__(self, o):
+        if hasattr(o, '_fn'):
+            return NotImplemented
         return cmp("<=", self, o)
 
     def __gt__(self, o):
+        if hasattr(o, '_fn'):
+            return NotImplemented
         return cmp(">", self, o)
 
     def __ge__(self, o):
+        if hasattr(o, '_fn'):
+            return NotImplemented
         return cmp(">=", self, o)
 
     def __eq__(self, o):
+        if hasattr(o, '_fn'):
+            return NotImplemented
         return cmp("==", self, o)
 
     def __ne__(self, o):
+        if hasattr(o, '_fn'):
+            return NotImplemented
         return cmp("!=", self, o)
 
     # boolean
     def __and__(self, o):
+        if hasattr(o, '_fn'):
+            return NotImplemented
         return land(self, o)
 
     def __rand__(self, o):
+        if hasattr(o, '_fn'):
+            return NotImplemented
         return land(o, self)
 
     def __or__(self, o):
+        if hasattr(o, '_fn'):
+            return NotImplemented
         return lor(self, o)
 
     def __ror__(self, o):
+        if hasattr(o, '_fn'):
+            return NotImplemented
         return lor(o, self)
 
     def __invert__(self):
